@@ -4,7 +4,7 @@ import Driver.C13
 /-! Suite C14: model = `Model.Phy` (`LoRa<RK>` over the SX126x / SX127x models); the "spec" column is
 the verdict of the invariants I1–I5 evaluated on the run (`-` = all hold).  Op lines:
   C14 seq        <chip> ; <call>@<irq words>@<fault>@<pend> ; …      verbose answer
-  C14 seq_digest <chip> ; …                                           transcripts hashed
+  C14 seqh <chip> ; …                                           transcripts hashed
 see `harness/src/c14.rs`. -/
 open Model.Phy
 namespace Driver.C14
@@ -130,7 +130,7 @@ def runSeq {σ μ : Type} (rk : RadioKindOps σ μ) (kind : Kind) (needs : Needs
 
 def irqDefaultOf (kind : Kind) : Nat := if kind = .sx126x then 0x0283 else 0x4c
 
-def handleSeq (digest : Bool) (rest : String) : String :=
+def handleSeq (digest : Bool) (rest : String) (inv : Bool := false) : String :=
   match splitOn' rest ";" with
   | chip :: calls =>
     match parseChip chip with
@@ -154,6 +154,7 @@ def handleSeq (digest : Bool) (rest : String) : String :=
             match o0 with
             | .ok _ =>
               let (lines, bad) := runSeq rk .sx126x needs digest steps s1 t1
+              if inv then s!"{match bad with | some b => b | none => "ok"}|ok" else
               s!"{String.intercalate " ; " lines}|{match bad with | some b => b | none => "-"}"
             | _ => "new-failed|-"
       else
@@ -170,6 +171,7 @@ def handleSeq (digest : Bool) (rest : String) : String :=
           match o0 with
           | .ok _ =>
             let (lines, bad) := runSeq rk .sx127x needs digest steps s1 t1
+            if inv then s!"{match bad with | some b => b | none => "ok"}|ok" else
             s!"{String.intercalate " ; " lines}|{match bad with | some b => b | none => "-"}"
           | _ => "new-failed|-"
   | _ => "bad-op"
@@ -177,7 +179,8 @@ def handleSeq (digest : Bool) (rest : String) : String :=
 def handle (ws : List String) : String :=
   match ws with
   | "seq" :: rest => handleSeq false (String.intercalate " " rest)
-  | "seq_digest" :: rest => handleSeq true (String.intercalate " " rest)
+  | "seqh" :: rest => handleSeq true (String.intercalate " " rest)
+  | "inv" :: rest => handleSeq true (String.intercalate " " rest) true
   | _ => "bad-op"
 
 end Driver.C14
